@@ -8,7 +8,7 @@ man = json.load(open(V / "MANIFEST.json"))
 ids = [c["property_id"] for c in man["checks"]]
 seeds = sorted(p.name for p in (V / "seeded").iterdir() if (p / "patch.diff").exists())
 if len(sys.argv) > 1:
-    seeds = [s for s in seeds if s in sys.argv[1:]]
+    seeds = [s for s in seeds if s in sys.argv[1:] or s.split('-')[0] in sys.argv[1:]]
 assert subprocess.run(["git", "-C", "/repo", "status", "--porcelain"], capture_output=True, text=True).stdout.strip() == "", "/repo not clean"
 summary = {}
 for s in seeds:
